@@ -2,6 +2,7 @@
 package c05
 
 import (
+	"bytes"
 	"encoding/json"
 	"fmt"
 	"os"
@@ -12,6 +13,7 @@ import (
 	"time"
 
 	"github.com/protobom/protobom/pkg/formats"
+	"github.com/protobom/protobom/pkg/reader"
 	"github.com/protobom/protobom/pkg/sbom"
 	"google.golang.org/protobuf/proto"
 
@@ -500,6 +502,21 @@ func parseHistory(c *engine.Ctx) {
 				t.Validated(1)
 				if got != refs[last] {
 					return engine.Violate("history-dependent", "", "after %d other parse(s) input #%d parses differently than as first parse of a fresh process: %s", len(s)-1, last, gen.SnapDiff(refs[last], got))
+				}
+				// the same history on ONE reader value through its plain entry point (the reader's own options serve every
+				// call): whatever a parse leaves on the reader must not steer the next one
+				rd := reader.New()
+				for _, i := range s {
+					d, err := rd.ParseStream(bytes.NewReader([]byte(ins[i])))
+					got = "error"
+					if err == nil {
+						got = docKey(d)
+					}
+					t.Transitions(1)
+				}
+				t.Validated(1)
+				if got != refs[last] {
+					return engine.Violate("history-dependent", "one-reader", "after %d other parse(s) on the same Reader value, ParseStream of input #%d differs from its first parse in a fresh process: %s", len(s)-1, last, gen.SnapDiff(refs[last], got))
 				}
 				t.State(fmt.Sprint("phist", s))
 				t.Outcome("parse-history-ok")
